@@ -63,6 +63,15 @@ def spelling_values():
     vals += [True, False]
     junk = ["", " ", "yes", "no", "2", "-1", "tru", "truee", " true", "true ", "TRUE\n", "t", "f", "on", "off", "none", "None", "01", "1.0", "0.0",
             "fa lse", "fal\x00se", "ｔｒｕｅ", 0, 1, 2, None, 1.0, 0.0, b"1", b"true", [], (), object, "True1", "FALSE0", "İ", "ſ", "falſe", "FALſE", "１", "０", "tr\u016be", "ｆalse"]
+
+    class BadRepr:
+        def __repr__(self):
+            raise RuntimeError("repr")
+
+        __str__ = __repr__
+
+    # values that misbehave when an error message is BUILT from them (tuples under `%`, mappings under `.format_map`, a raising repr)
+    junk += [(0, 1), ("true", "false"), ("1",), {"k": 1}, frozenset(), bytearray(b"1"), range(2), 1 + 2j, BadRepr()]
     return vals, junk
 
 
@@ -72,6 +81,13 @@ def to_model_val(v):
     if isinstance(v, str):
         return v
     return None
+
+
+def rp(v):
+    try:
+        return repr(v)
+    except BaseException:  # noqa: BLE001
+        return f"<{type(v).__name__} object whose repr raises>"
 
 
 def config_cases(out, drv):
@@ -94,20 +110,20 @@ def config_cases(out, drv):
                 cfg.update("jaxtyping_disable", before[0])
                 cfg.update("jaxtyping_remove_typechecker_stack", before[1])
             ascii_ok = not isinstance(v, str) or v.isascii()
-            out.case(("cfg", item, repr(v)), item.lower().startswith("jaxtyping_"), sample={"item": item, "value": repr(v), "observed": got})
+            out.case(("cfg", item, rp(v)), item.lower().startswith("jaxtyping_"), sample={"item": item, "value": rp(v), "observed": got})
             if not (ascii_ok and item.isascii()):
                 out.count("non_ascii")
                 if isinstance(got, str) and got.startswith("OTHER"):
-                    out.violation(f"config:{got}", f"config.update({item!r}, {v!r}) raised {got}", {"item": item, "value": repr(v)})
+                    out.violation(f"config:{got}", f"config.update({item!r}, {rp(v)}) raised {got}", {"item": item, "value": rp(v)})
                 elif item.isascii() and item.lower() in ("jaxtyping_disable", "jaxtyping_remove_typechecker_stack") and got != "VAL":
                     # a letter or digit outside ASCII is not another CASE of an ASCII one (long s, fullwidth forms, ...): not one of 0/1/true/false
-                    out.violation("config:non-ascii:accept", f"config.update({item!r}, {v!r}) was accepted ({got}); {v!r} is not 0/1/true/false in any case, it must be rejected with ValueError",
-                                  {"item": item, "value": repr(v), "observed": got, "required": "VAL"})
+                    out.violation("config:non-ascii:accept", f"config.update({item!r}, {rp(v)}) was accepted ({got}); {rp(v)} is not 0/1/true/false in any case, it must be rejected with ValueError",
+                                  {"item": item, "value": rp(v), "observed": got, "required": "VAL"})
                 continue
             w = drv.ask({"cmd": "cfg", "item": item, "val": to_model_val(v), "disable0": before[0], "remove0": before[1]})
             if got != w:
                 out.violation(f"config:{item.lower()[:40]}:{'accept' if w != 'VAL' else 'reject'}",
-                              f"config.update({item!r}, {v!r}) gave {got} but must give {w}", {"item": item, "value": repr(v), "observed": got, "required": w})
+                              f"config.update({item!r}, {rp(v)}) gave {got} but must give {w}", {"item": item, "value": rp(v), "observed": got, "required": w})
 
 
 def env_cases(out, thorough):
